@@ -220,6 +220,26 @@ for (n, d) in ((1, 2), (2, 1)):
         mk()
 
 
+for _cn in ('FastTriggs', 'Triggs'):
+    def mk(cname=_cn):
+        @obligation(f'C09.{cname}.rank3_residual', functions=[f'{COR}:{cname}.forward'], max_paths=32, timeout=300)
+        def rank3(env):
+            """a residual with two batch axes, shape (2, 2, 2): item (b1, b2) is weighted with the slope of ITS OWN squared norm, in R' and in the
+            matching rows of J' (row-major flattening), so J'^T R' is still the robust gradient"""
+            cor = env.load(COR); T = env.T
+            k = AbstractKernel(env, 4, '0' if cname == 'FastTriggs' else '-')
+            R2d = sym_matrix(env, 'R', 4, 2); J = sym_matrix(env, 'J', 8, 2)
+            R = R2d.reshape(2, 2, 2)
+            c = getattr(cor, cname)(k)
+            Rc, Jc = c(R=R, J=J)
+            g1, g2 = k.grads((R2d * R2d).sum(-1, keepdim=True))
+            grad, _ = robust_sums(T, R2d, J, g1, g2)
+            env.eq('JtR_is_robust_gradient', Jc.transpose(-1, -2) @ Rc.reshape(-1), grad)
+            env.eq('each residual item is scaled by the square root of its own slope', Rc.reshape(4, 2) * Rc.reshape(4, 2), g1 * R2d * R2d)
+            env.safe('finite', Rc, Jc)
+    mk()
+
+
 @obligation('C09.Triggs.zero_residual_coincides', functions=[f'{COR}:Triggs.forward'], max_paths=16)
 def triggs_zero(env):
     """rho'' > 0 but R_i = 0: coincides with FastTriggs"""
